@@ -8,6 +8,17 @@ ROOT = os.path.dirname(os.path.dirname(os.path.abspath(__file__)))
 TECH = 'bounded symbolic execution of the real code (symx: SymInt/SymBool proxies + z3 path feasibility, exhaustive DFS by re-execution); counterexamples replayed concretely'
 
 CHECKS = {
+    'C05': dict(
+        text='The Rust checker (re-transpiled from rust/src/lib.rs on every run and validated in the same run against the rustc-built binary on 4000+ streams, verdict and Debug state) and an independent implementation of docs/proof-language.md consume the same symbolic byte buffers: every byte of short streams, and one or two bytes of valid programs at every position (plus every truncation), are z3 variables; verdicts and final stack/memory/claims must agree on every feasible path. Behaviour the document leaves undefined is skipped and counted, not judged.',
+        note='Trusted: z3, symx, rs2py (validated per run), vf/refm.py = my reading of the document with assumptions a1-a5 and unspecified cases u1-u3 listed in the evidence. Bounds: <= 3 (quick) / 6 (thorough) symbolic proof bytes, small gamma/claim prefixes, 1 (quick) / 2 (thorough) symbolic bytes in 6-7 valid programs.',
+        design='DESIGN.md 5 C05',
+        technique='differential bounded symbolic execution (symx + z3) of the transpiled Rust checker against a reference machine; translation validation against the real binary; replay on the real binary',
+    ),
+    'C06': dict(
+        text='e_fresh/s_fresh/positive/negative of the Rust checker (via rs2py) and evar_is_free of the Python generator are executed symbolically on meta-patterns (nested binders, constrained metavariables, stacked ESubst/SSubst; notation on the Python side) with the judged variable, all ids and constraint members symbolic; whenever a judgement is True, the ground truth (free variables / polarity computed by an independent oracle) must hold on the instance under every constraint-respecting concrete instantiation up to the value bound.',
+        note='Trusted: z3, symx, rs2py (validated against the real binary in C05), vf/oracle.py. Bounds: meta-pattern <= 4/5 nodes (5 for the SSubst polarity level), instantiation values <= 2/3 nodes, one constraint per list.',
+        design='DESIGN.md 5 C06',
+    ),
     'C07': dict(
         text='Every path of the three rule implementations (modus ponens, existential generalization, instantiate) in BasicInterpreter, StatefulInterpreter and the ProofExp thunks is explored for all premise shapes up to the node bound with all ids symbolic; z3 decides branch feasibility, so within the bound "returns iff the documented rule applies, with exactly its conclusion" holds for every id valuation, not for sampled ones.',
         note='Trusted: z3, the symx proxies, the textbook oracle vf/oracle.py and my reading of docs/proof-language.md for the three rules. Bounds: premise <= 4 (quick) / 5 (thorough) nodes, second premise <= 2 nodes or the antecedent shape with fresh ids.',
@@ -35,8 +46,6 @@ NOT_YET = {
     'C02': 'check under construction in this session; not claimed until it runs',
     'C03': 'check under construction in this session; not claimed until it runs',
     'C04': 'check under construction in this session; not claimed until it runs',
-    'C05': 'check under construction in this session; not claimed until it runs',
-    'C06': 'check under construction in this session; not claimed until it runs',
     'C08': 'check under construction in this session; not claimed until it runs',
     'C09': 'check under construction in this session; not claimed until it runs',
     'C10': 'check under construction in this session; not claimed until it runs',
